@@ -182,6 +182,9 @@ def run(rep, tier, seed):
     # directory fsync fails once; a fault-free reopen must then succeed)
     import k3check
     k3check.failed_install_segment(rep, tier, seed, label='current-vs-manifest-after-failed-install')
+    # CURRENT names a complete MANIFEST in every crash image: the corpus histories (open, writes, two MANIFEST roll-overs)
+    # crashed at EVERY syscall boundary, process-crash and minimal power-loss images; the real open must succeed
+    k3check.run_crash(rep, 'C17', tier, seed, ['written', 'min'], 0 if tier == 'quick' else 20, 30, 100000, [{'write_buffer': 65536, 'reuse_logs': 0}])
     rep.cov['rule'] = ('stage 1: varint32/64 write/size/read at every 7-bit boundary, truncated and over-long encodings; file names from '
                        'every constructor at boundary numbers, mutated and overflowing numbers; user/internal key comparisons, separators, '
                        'successors, lookup keys; batches built through the C API; version edits built through the C API (each field '
